@@ -10,7 +10,9 @@ RULE = ("msprime tree sequences with ploidy=2 contemporary individuals (2-4 indi
         "multiple-merger, integer coordinates), extra singletons added on the individuals' nodes, every mutation "
         "given a unique derived state so that output rows are matched by (site, derived_state) (tskit's sort may "
         "permute rows inside a site, DESIGN.md section 9 K9); x random re-phasings (each singleton moved to the "
-        "individual's other node with probability 1/2); x singletons_phased in {True, False}; x rescaling on/off. "
+        "individual's other node with probability 1/2); x singletons_phased in {True, False}; x one random option "
+        "set per re-phasing pair (match_segregating_sites, rescaling_intervals in {0, 2, 5, 20, default}, "
+        "rescaling_iterations, max_iterations, max_shape, regularise_roots). "
         "A case is non-trivial when at least one singleton exists on an unphased individual")
 ASSUME = ["tskit's tables satisfy valid_tablesb (checked inside Coq on every input)",
           "the values of mutation_phase < 0.5 are taken from the run (the EP numerics are not part of this model)",
@@ -88,6 +90,7 @@ def by_state(ts):
 def run_ep(ts, mu, phased, rescale):
     """ExpectationPropagation.infer with the pre-switch phases recorded from outside"""
     import tsdate.variational as variational
+    import tsdate.core as core
     with S.time_limit(120):
         fit = variational.ExpectationPropagation(ts, mutation_rate=mu, singletons_phased=phased)
         phases = []
@@ -98,8 +101,14 @@ def run_ep(ts, mu, phased, rescale):
             phases.append(np.array(args[2], dtype=float).copy())
         fit.propagate_mutations = spy
         in_edges = fit.mutation_edges.copy()
-        fit.infer(ep_iterations=2, max_shape=1000, rescale_intervals=(5 if rescale else 0), rescale_iterations=2,
-                  regularise=True, rescale_segsites=False, progress=False)
+        o = norm_opts(rescale)
+        fit.infer(ep_iterations=o["max_iterations"],
+                  max_shape=(1000 if o["max_shape"] is None else o["max_shape"]),
+                  rescale_intervals=(core.DEFAULT_RESCALING_INTERVALS if o["rescaling_intervals"] is None
+                                     else o["rescaling_intervals"]),
+                  rescale_iterations=(core.DEFAULT_RESCALING_ITERATIONS if o["rescaling_iterations"] is None
+                                      else o["rescaling_iterations"]),
+                  regularise=o["regularise_roots"], rescale_segsites=o["match_segregating_sites"], progress=False)
     pre = phases[-1]
     return {"lt_half": [bool(x < 0.5) for x in pre], "pre_phase": [float(x) for x in pre],
             "post_phase": [float(x) for x in fit.mutation_phase],
@@ -109,11 +118,30 @@ def run_ep(ts, mu, phased, rescale):
             "mutation_blocks": [int(x) for x in fit.mutation_blocks]}
 
 
+def make_opts(rng):
+    """one random option set; every run of a re-phasing pair uses the same one"""
+    return {"match_segregating_sites": rng.random() < 0.5,
+            "rescaling_intervals": rng.choice([0, 2, 5, 20, None, None]),
+            "rescaling_iterations": rng.choice([None, 1, 3]),
+            "max_iterations": rng.choice([1, 3, 5]),
+            "max_shape": rng.choice([None, 20.0, 1000.0]),
+            "regularise_roots": rng.choice([True, False])}
+
+
+def norm_opts(o):
+    """option dict (older replays stored a bool 'rescale')"""
+    if isinstance(o, dict):
+        return o
+    return {"match_segregating_sites": False, "rescaling_intervals": 5 if o else 0, "rescaling_iterations": 2,
+            "max_iterations": 3, "max_shape": None, "regularise_roots": True}
+
+
 def date(ts, mu, phased, rescale):
     import tsdate
     with S.time_limit(300):
+        kw = {k: v for k, v in norm_opts(rescale).items() if v is not None}
         return tsdate.date(ts, method="variational_gamma", mutation_rate=mu, singletons_phased=phased,
-                           max_iterations=3, rescaling_intervals=(5 if rescale else 0), progress=False)
+                           progress=False, **kw)
 
 
 # ---------------------------------------------------------------- model side
@@ -256,7 +284,7 @@ def run(ctx, model_ok=True):
     for _ in range(n):
         ts = make_ts(ctx.rng)
         mu = ctx.rng.choice([0.01, 0.05, 0.3])
-        rescale = ctx.rng.random() < 0.4
+        rescale = make_opts(ctx.rng)
         rp = {"tables": S.describe(ts), "mu": mu, "rescale": rescale}
         try:
             nsing = oracle(ctx, ctx.rng, ts, mu, rescale)
@@ -325,7 +353,7 @@ def search(ctx):
     for _ in range(ctx.n(150, 600)):
         ts = make_ts(ctx.rng)
         try:
-            oracle(ctx, ctx.rng, ts, ctx.rng.choice([0.01, 0.05, 0.3]), False)
+            oracle(ctx, ctx.rng, ts, ctx.rng.choice([0.01, 0.05, 0.3]), make_opts(ctx.rng))
         except S.ImplTimeout as e:
             ctx.oracle_fail("timeout", str(e), {"tables": S.describe(ts)})
             return
@@ -341,5 +369,5 @@ def replay(ctx, data):
     case = data["case"]
     ts = unique_states(gen.ts_from_dict(case["tables"]))
     before = len(ctx.oracle_fails)
-    oracle(ctx, random.Random(0), ts, case.get("mu", 0.05), bool(case.get("rescale")))
+    oracle(ctx, random.Random(0), ts, case.get("mu", 0.05), norm_opts(case.get("rescale", False)))
     return len(ctx.oracle_fails) == before
